@@ -20,7 +20,7 @@
    A burst is one handler invocation of one of the two modules; it may send
    into several channels.  No proofs in this file (see Project.v). *)
 From Coq Require Import List NArith Bool.
-From DesVerif Require Import Common.Codec CQueue.Model CQueue.Spec Channel.Model.
+From DesVerif Require Import Common.Codec CQueue.Model CQueue.Spec Channel.Model Channel.DrawModel.
 Import ListNotations.
 Open Scope N_scope.
 
@@ -209,9 +209,23 @@ Fixpoint tx_tbl3 (tbl : list (N * N * N)) (i len : N) : N :=
    and when a link is connected only concern the implementation; the tx table gives the transmission
    time per link and message length.  A trailing 9 would report events left pending (fuel exhausted;
    excluded by MTerm.multi_run_completes). *)
+(* probe script (nl = 0): seed 0 brk br lat jit  ntx (len tx)*  nw (hi lo)*
+   the public ChannelMetrics::calculate_duration is called, for every listed message length, with a
+   generator that returns the 64-bit word hi * 2^32 + lo for every draw; the answer is
+   duration - latency - tx len, i.e. the jitter that word yields (DrawModel.jit_of_word):
+   record 5 len hi lo j *)
+Definition run_probe (r : list N) : list N :=
+  let jit := nth 3 r 0 in
+  let '(tb, r1) := take_lp (skipn 4 r) in
+  let '(wb, _) := take_lp r1 in
+  let tbl := pairs tb in
+  [7; N.of_nat (length tbl)] ++ flat_map (fun p => [fst p; snd p]) tbl
+    ++ flat_map (fun p => flat_map (fun w => [5; fst p; fst w; snd w; jit_of_word jit (fst w * 2 ^ 32 + snd w)]) (pairs wb)) tbl.
+
 Definition run (input : list N) : list N :=
   match input with
   | _ :: nl :: r =>
+      if nl =? 0 then run_probe r else
       let nl' := N.max 1 (N.min nl 3) in
       let ls := links_of (N.to_nat nl') r in
       let r0 := skipn (7 * N.to_nat nl') r in
